@@ -51,6 +51,31 @@ def run(tier, seed):
         ops.append({"op": "problem", "id": f"p{i}", "spec": {k: v for k, v in spec.items() if not k.startswith("_")}, "_tags": spec["_tags"]})
         for tol in ["0", "1/10000", "1/100", "1/5"]:
             ops.append({"op": "matrices", "id": f"p{i}", "tol": tol})
+    # twins: a second problem instance of the same class with the same array shapes (S, A, E, state dimension) but a different state -> index
+    # map, built in the same process right after the first (anything cached per class / per shape between builds must not leak)
+    for i in range(3 if tier == "quick" else 12):
+        E = rng.choice([2, 3])
+        spec = gen.gen_spec(rng, S=rng.choice([6, 8, 12]), A=rng.choice([2, 3]), E=E, kind="random", denom=4, R=10, maxdim=2, zero_in_box=True)
+        dims = [b - a + 1 for a, b in zip(spec["smins"], spec["smaxs"])]
+        twin = {k: (list(v) if isinstance(v, list) else v) for k, v in spec.items()}
+        if len(dims) == 2 and dims[0] != dims[1] and i % 2 == 0:
+            # transposed box: same number of rows and columns of the state array, other strides
+            twin["smins"] = [spec["smins"][1], spec["smins"][0]]; twin["smaxs"] = [spec["smaxs"][1], spec["smaxs"][0]]
+            tag = "twin-transposed"
+        else:
+            off = rng.choice([1, 2, -3])
+            twin["smins"] = [a + off for a in spec["smins"]]; twin["smaxs"] = [b + off for b in spec["smaxs"]]
+            tag = "twin-shifted"
+        ops = jobs[i % W][0]
+        for nm, sp in ((f"tw{i}a", spec), (f"tw{i}b", twin)):
+            ops.append({"op": "problem", "id": nm, "spec": {k: v for k, v in sp.items() if not k.startswith("_")}, "_tags": [tag]})
+            ops.append({"op": "matrices", "id": nm, "tol": "1/10000"})
+    HX = "mdpax.problems.perishable_inventory.hendrix_two_product.HendrixTwoProductPerishable"
+    hk = {"max_useful_life": 2, "demand_poisson_mean_a": 0.5, "demand_poisson_mean_b": 0.5}
+    ops = jobs[0][0]
+    for nm, q in (("hxa", (2, 1)), ("hxb", (1, 2))):
+        ops.append({"op": "shipped", "id": nm, "target": HX, "kwargs": dict(hk, max_order_quantity_a=q[0], max_order_quantity_b=q[1]), "_tags": ["shipped:Hendrix-twin"]})
+        ops.append({"op": "matrices", "id": nm, "tol": "1/5"})
     for j, (target, kw) in enumerate(SHIPPED if tier == "quick" else SHIPPED * 1):
         ops = jobs[j % W][0]
         ops.append({"op": "shipped", "id": f"sh{j}", "target": target, "kwargs": kw, "_tags": ["shipped:" + target.rsplit(".", 1)[1]]})
